@@ -1,4 +1,3 @@
-from datetime import date
 from typing import Any, ClassVar, Collection, Dict, List, Optional, Type, Union
 
 from pydantic import Field
@@ -11,7 +10,7 @@ from pycfmodel.model.parameter import Parameter
 from pycfmodel.model.resources.generic_resource import GenericResource
 from pycfmodel.model.resources.resource import Resource
 from pycfmodel.model.resources.types import ResourceModels
-from pycfmodel.model.types import Resolvable
+from pycfmodel.model.types import Resolvable, SafeDate
 from pycfmodel.resolver import _extended_bool, resolve
 
 AllResourcesType = Annotated[Union[ResourceModels, GenericResource], Field(union_mode="left_to_right")]
@@ -79,7 +78,7 @@ class CFModel(CustomModel):
     More info at [AWS Docs](https://docs.aws.amazon.com/AWSCloudFormation/latest/UserGuide/template-anatomy.html)
     """
 
-    AWSTemplateFormatVersion: Optional[date] = None
+    AWSTemplateFormatVersion: Optional[SafeDate] = None
     Conditions: Optional[Dict] = {}
     Description: Optional[str] = None
     Mappings: Optional[Dict[str, Dict[str, Dict[str, Any]]]] = {}
